@@ -133,6 +133,8 @@ def sel_form(s):
         return 'list'
     if re.fullmatch(r'[\w\-]+', s):
         return 'str_exact'
+    if s.startswith('(?'):
+        return 'str_inline_flag'
     if '|' in s:
         return 'str_alternation'
     return 'str_regex'
@@ -141,7 +143,7 @@ def sel_form(s):
 def selectors(names):
     k = len(names)
     out = [None, names[0], names[-1], 'a.*', 'a.b', '[ab]+', 'a|ab', '(a|ab)', 'b|a', 'ab?c?',
-           re.escape(names[-1]), 'zzz',
+           re.escape(names[-1]), 'zzz', '(?i)' + names[0].upper(), '(?i)A.*|zzz',
            [], [names[0]], list(names), [names[-1], 'nope'], 0, -1, k - 1, -k, k, -k - 1]
     if k > 1:
         out += [1, [names[0], names[-1]], names[:2], [names[1]]]
